@@ -227,7 +227,7 @@ public:
 		{
 			if (auto xmlNode = LoadNextItem())
 			{
-				if (xmlNode.first_child().type() == pugi::node_element)
+				if (xmlNode.first_child().empty() || xmlNode.first_child().type() == pugi::node_element)
 				{
 					return std::make_optional<PugiXmlArrayScope<TMode>>(xmlNode, TArchiveScope<TMode>::GetContext());
 				}
@@ -248,7 +248,7 @@ public:
 		{
 			if (auto xmlNode = LoadNextItem())
 			{
-				if (xmlNode.first_child().type() == pugi::node_element)
+				if (xmlNode.first_child().empty() || xmlNode.first_child().type() == pugi::node_element)
 				{
 					return std::make_optional<PugiXmlObjectScope<TMode>>(xmlNode, TArchiveScope<TMode>::GetContext());
 				}
@@ -455,7 +455,7 @@ public:
 		{
 			if (auto child = PugiXmlExtensions::GetChild(mNode, std::forward<TKey>(key)))
 			{
-				if (child.first_child().type() == pugi::node_element)
+				if (child.first_child().empty() || child.first_child().type() == pugi::node_element)
 				{
 					return std::make_optional<PugiXmlObjectScope<TMode>>(child, TArchiveScope<TMode>::GetContext());
 				}
@@ -477,7 +477,7 @@ public:
 		{
 			if (auto node = PugiXmlExtensions::GetChild(mNode, std::forward<TKey>(key)))
 			{
-				if (node.first_child().type() == pugi::node_element)
+				if (node.first_child().empty() || node.first_child().type() == pugi::node_element)
 				{
 					return std::make_optional<PugiXmlArrayScope<TMode>>(node, TArchiveScope<TMode>::GetContext());
 				}
